@@ -356,4 +356,13 @@ theorem mrun_vals (ops : List Op) (m : M) (hnd : (Keys m).Nodup) :
       | noSync => rfl
     rw [this]
 
+theorem run_eager2 (ops : List Op) (db : DB) (h : Inv3 db) (ok : ∀ op ∈ ops, OpOK2 db.eager op) (fits : RunFits2 db ops) :
+    (run db ops).eager = db.eager := by
+  induction ops generalizing db with
+  | nil => rfl
+  | cons op t ih =>
+    obtain ⟨h1, _⟩ := step_inv3' db h op (ok op List.mem_cons_self) fits.1
+    have he := step_eager2 db h op (ok op List.mem_cons_self) fits.1
+    exact (ih (step db op) h1 (fun o ho => by rw [he]; exact ok o (List.mem_cons_of_mem _ ho)) fits.2).trans he
+
 end GocoinV.Proofs.C19
